@@ -2,6 +2,7 @@
 from __future__ import annotations
 
 from . import tier
+from .fsxcheck import bisim
 from .fsxcheck import run as fsx
 from .report import Check, log
 
@@ -34,6 +35,7 @@ def c02() -> int:
     fsx(c, RES + ({"variant": "core", "gas": True, "mechs": ("thirsty", "tiny_thirsty", "ice"), "name": "W-res/energy"},), ("hivemc.bundles", "c02", {}),
         K=2 if quick else 3, H=7 if quick else 9)
     fsx(c, ("hivemc.w_prec", "make", {}), ("hivemc.bundles", "c02", {}), K=2 if quick else 3, H=6 if quick else 8)
+    bisim(c, RES + ({"variant": "core", "pairs": False},), K=1 if quick else 2, H=3 if quick else 4)
     return c.finish()
 
 
@@ -74,6 +76,7 @@ def c03() -> int:
     # requests that allow pooling (optional column of the request file), served by autonomous vehicles as one-request pooling trips
     fsx(c, REQ + ({"requests": ["p0", "p1", "r2"], "name": "W-req/pooling"},), ("hivemc.bundles", "c03", {}), K=3 if quick else 4, H=8 if quick else 10,
         needs=["c03:pickup", "c03:dropoff_later_step", "c03:instruction_to_pooling_vehicle_with_passengers", "default:DispatchTrip>ServicingPoolingTrip"])
+    bisim(c, REQ + ({"pairs": False},), K=1 if quick else 2, H=3 if quick else 4)
     return c.finish()
 
 
@@ -310,6 +313,7 @@ def c18() -> int:
     fsx(c, FIFO + ({"full_v1": True},), ("hivemc.bundles", "c18", {}), K=4 if quick else 5, H=9 if quick else 11, needs=needs[:1])
     fsx(c, FIFO + ({"t0": True},), ("hivemc.bundles", "c18", {}), K=3 if quick else 5, H=9 if quick else 11,
         needs=needs[:1] + ["default:ChargingStation>Idle"])
+    bisim(c, FIFO + ({"pairs": False},), K=2, H=4 if quick else 5)
     return c.finish()
 
 
